@@ -9,3 +9,9 @@ func raceEnable()  { runtime.RaceEnable() }
 
 // RaceEnabled reports whether the binary was built with the race detector.
 const RaceEnabled = true
+
+// RaceDisable hides the calling goroutine's synchronisation from the race detector.
+func RaceDisable() { runtime.RaceDisable() }
+
+// RaceEnable undoes RaceDisable.
+func RaceEnable() { runtime.RaceEnable() }
